@@ -88,7 +88,10 @@ BODY_NAMES = ['CIM', 'MESSAGE', 'SIMPLEEXPREQ', 'SIMPLEREQ', 'EXPMETHODCALL', 'M
               'PARAMVALUE', 'INSTANCE', 'CLASS', 'PROPERTY', 'VALUE', 'VALUE.ARRAY', 'INSTANCENAME', 'BOGUS',
               'SIMPLEEXPRSP', 'EXPMETHODRESPONSE', 'MULTIEXPREQ', 'ERROR']
 BODY_ATTR_VALUES = ['', 'x', '1.0', '2.0', '2.1', '3.0', '1', '9.9', 'ExportIndication', 'NewIndication',
-                    'string', 'bogus', 'é', 'a\nb', '€\U0001F600']
+                    'string', 'bogus', 'é', 'a\nb', '€\U0001F600',
+                    # markup characters: request-derived text (MESSAGE ID, method name) is echoed into
+                    # attributes of the response
+                    'a"b', "a'b", 'a<b&c>d', ']]>', '"\'<&>']
 BODY_TEXT_VALUES = ['', 'x', '\x00', 'é', '<INSTANCE CLASSNAME="X"/>', '<', '€\U0001F600']
 BODY_BYTES = [b'\x00', b'<', b'\xff']
 WHOLE_BODIES = [b'', b' ', b'not xml', b'<CIM/>', b'\xef\xbb\xbf' + BODY, BODY + b'trailing', BODY + BODY,
